@@ -564,9 +564,30 @@ def cli_rejections(chk, tags, per_tag, stats, patch=None):
                     kinds.add(kind); picked.append(c)
                 if len(picked) >= per_tag:
                     break
-            for c in picked:
-                res = cli_driver.run_cli(t.extra_cli + ["-r", "--", c["template"], os.path.join(root, "in")],
-                                         root, root=root, snapshots=False, before_main=patch)
+            # (the generated registry has no Core category: there the host template is static text)
+            host_tail, host_name = ("", "xname") if t.origin == "generated" else ("_%Core.Name()", "x%Core.Name()")
+            # a documented call with positional values, with the options that only change what is printed: never a template error
+            okc = [c for c in t.calls if c["obs"][0] == "accept" and c["npos"] > 0 and c["template"] and "twice" not in c["why"]][:1]
+            for c in okc:
+                for flags in (["-v"], ["-v", "-v"], ["-q"]):
+                    res = cli_driver.run_cli(t.extra_cli + flags + ["-dr", "-r", "--", "x" + c["template"] + host_tail, os.path.join(root, "in")],
+                                             root, root=root, snapshots=False, before_main=patch)
+                    stats["cli_runs"] += 1
+                    chk.count(("cli-accepted", t.qualified, c["template"], tuple(flags)))
+                    if res.status in (2, 3):
+                        chk.oracle_fail("a documented call is rejected (status %s) when run with %r" % (res.status, flags),
+                                        {"origin": t.origin, "tag": t.qualified, "help_line": t.line, "template": c["template"], "cli_options": t.extra_cli + flags,
+                                         "class_source": t.source, "cli_status": res.status, "stderr": res.stderr[-400:]})
+            for ci, c in enumerate(picked):
+                # the rejected call in the name template over a directory, or in the sort / filter template over explicitly named files
+                shape = ci % 3
+                if shape == 0:
+                    argv = ["-r", "--", c["template"], os.path.join(root, "in")]
+                elif shape == 1:
+                    argv = ["-s", c["template"], "--", host_name, os.path.join(root, "in", "a.txt"), os.path.join(root, "in", "b.jpg")]
+                else:
+                    argv = ["-ft", c["template"] + " != 1", "--", host_name, os.path.join(root, "in", "a.txt"), os.path.join(root, "in")]
+                res = cli_driver.run_cli(t.extra_cli + argv, root, root=root, snapshots=False, before_main=patch)
                 after = cli_driver.strict_snapshot(root)
                 stats["cli_runs"] += 1
                 chk.count(("cli", t.qualified, c["template"]))
